@@ -436,6 +436,7 @@ namespace
 		{
 			i = -1;
 		}
+		runtime.number_decimals(i);
 		sqf::types::d_scalar::set_decimals(i);
 		return {};
 	}
